@@ -1,6 +1,244 @@
+"""C09 — generation is deterministic; re-running on unchanged input is a no-op."""
+from __future__ import annotations
+
+import contextlib
+import io
+import json
+import multiprocessing as mp
+import os
+import random
+import shutil
+import subprocess
+import sys
+
 ID = "C09"
 LEVEL = "other"
 CONTRACT_MODULES = ["contracts.showdiffs"]
-EXPLANATION = "x"
-TRUSTED = []
-MANIFEST = {"category": "other", "text": "x", "note": "x", "technique": "x"}
+EXPLANATION = ("'Two runs agree' is a relation between executions of the whole pipeline; no contract on one function states it. What is under contract is "
+               "the function that DECIDES the non-force run: both loops of ClientGenerator._show_diffs carry a statement contract (one arbitrary "
+               "iteration, for every file): a generated file without an equal counterpart sets has_diff, an existing module that is no longer "
+               "generated sets has_diff, an equal file does not, and has_diff is never cleared. Determinism itself (hash seed, process, clock, prior "
+               "runs, warm caches, output root) and the three run-level clauses (up-to-date re-run succeeds and leaves mtimes alone; a perturbed "
+               "tree makes the non-force run raise) are exercised by a bounded matrix over the shape corpus.")
+TRUSTED = ["pathlib / difflib are uninterpreted deterministic functions in the _show_diffs contracts; difflib.unified_diff is empty exactly for equal line lists",
+           "the byte-identity relation between two runs is only sampled (hash seeds, roots, orders listed in the bounded entry)",
+           "the `if has_diff_client or has_diff_core: raise` statement of generate() is exercised, not proved"]
+
+WORKER = os.path.join(os.path.dirname(os.path.abspath(__file__)), "c09_worker.py")
+SHAPES = ["schema-graph", "two-tags", "params-all-locations", "multi-2xx", "streams", "opid-collisions", "keyword-names", "free-text", "tag-spellings"]
+
+
+def _run_worker(arg):
+    jobs, hashseed, cwd = arg
+    import tempfile
+    fd, path = tempfile.mkstemp(suffix=".json", dir=os.environ.get("TMPDIR"))
+    os.close(fd)
+    json.dump(jobs, open(path, "w"))
+    env = dict(os.environ, PYTHONHASHSEED=str(hashseed))
+    p = subprocess.run([sys.executable, WORKER, path], capture_output=True, text=True, env=env, timeout=600, cwd=cwd)
+    os.unlink(path)
+    out = []
+    for line in p.stdout.splitlines():
+        if line.startswith("{"):
+            out.append(json.loads(line))
+    if len(out) != len(jobs):
+        return [{"id": j.get("id"), "error": "worker crashed: " + p.stderr[-300:], "tree": {}} for j in jobs]
+    return out
+
+
+def _strip_root(tree):
+    return {k: v for k, v in tree.items() if not k.startswith("_specs")}
+
+
+def _older_revision(d):
+    """another revision of a document: same schema names with other fields, and error status codes the subject documents do not use"""
+    import copy
+    d = copy.deepcopy(d)
+    for sch in (d.get("components") or {}).get("schemas", {}).values():
+        if isinstance(sch, dict) and isinstance(sch.get("properties"), dict):
+            sch["properties"]["legacy_field"] = {"type": "integer"}
+            sch["properties"].pop(next(iter(sch["properties"])), None)
+    for item in d["paths"].values():
+        for op in item.values():
+            if isinstance(op, dict) and "responses" in op:
+                for code in ("409", "418", "503"):
+                    op["responses"].setdefault(code, {"description": "gone in the next revision"})
+    return d
+
+
+def bounded_determinism(tier, seed):
+    from props import corpus, gen_harness as G
+    rnd = random.Random(seed)
+    docs = {n: d for n, f, d in corpus.shapes(tier, seed) if n in SHAPES or (tier == "thorough" and not n.startswith(("param-", "body-", "codes-")))}
+    other = _older_revision(docs.get("schema-graph") or next(iter(docs.values())))
+    base = G.scratch("c09")
+    failures, n = [], 0
+    try:
+        work = []
+        layouts = [("cli", None), ("acme.clients.cli", "acme.shared.core")]
+        for name, d in docs.items():
+            for li, (pkg, core) in enumerate(layouts):
+                only_history = li > 0 and not (tier == "thorough" or name in ("two-tags", "schema-graph"))
+                def job(tag, sub, docs_, **kw):
+                    root = os.path.join(base, f"{len(work)}_{tag}", *sub)
+                    os.makedirs(root)
+                    return dict(id=f"{name}|{li}|{tag}", root=root, pkg=pkg, core=core, docs=docs_, **kw)
+                rs = rnd.randrange(2, 2 ** 31)
+                variants = [
+                    ("ref", 0, job("ref", ["r"], [d])),
+                    ("hashseed-1", 1, job("hashseed-1", ["r"], [d])),
+                    (f"hashseed-{rs}+deeper-root+clock", rs, job("hs-root-clock", ["some", "deeper", "root dir"], [d], clock_shift=86400 * 400)),
+                    ("warm-process-after-other-document", 7, job("warm", ["r"], [other, d, d])),
+                    ("prior-run-of-other-document", 3, job("prior", ["r"], [other, d])),
+                ]
+                for tag, hs, j in variants:
+                    if only_history and not tag.startswith(("ref", "prior")):
+                        shutil.rmtree(os.path.dirname(j["root"]) if j["root"].endswith("/r") else j["root"], ignore_errors=True)
+                        continue
+                    work.append((tag, hs, j))
+        with mp.get_context("fork").Pool(min(16, len(work))) as pool:
+            res = pool.map(_run_worker, [([j], hs, base) for tag, hs, j in work], chunksize=1)
+        by = {}
+        for (tag, hs, j), r in zip(work, res):
+            n += 1
+            name, li, _ = j["id"].split("|")
+            by.setdefault((name, li), {})[tag] = r[0]
+        for (name, li), vs in by.items():
+            ref = vs["ref"]
+            for tag, r in vs.items():
+                if tag == "ref":
+                    continue
+                if (r["error"] is None) != (ref["error"] is None):
+                    failures.append({"id": f"bounded:determinism:{name}:{tag.split('-')[0]}:outcome", "detail": f"{name} layout {li}: {tag}: {r['error']} vs reference {ref['error']}",
+                                     "input": {"shape": name, "variant": tag}})
+                    continue
+                a, b = _strip_root(ref["tree"]), _strip_root(r["tree"])
+                if tag.startswith("prior") or tag.startswith("warm"):
+                    # the earlier document may legitimately leave nothing behind; stale files of it inside the package would be a difference
+                    pass
+                if a != b:
+                    diff = sorted(k for k in set(a) | set(b) if a.get(k) != b.get(k))
+                    failures.append({"id": f"bounded:determinism:{name}:{tag.split('-')[0]}:tree", "detail": f"{name} layout {li}: {tag}: files differ from the reference run: {diff[:6]}",
+                                     "input": {"shape": name, "variant": tag, "files": diff[:20]}})
+    finally:
+        shutil.rmtree(base, ignore_errors=True)
+    return {"function": "generate_client: sha256 of every file of the project root, reference run vs. other hash seeds / deeper root + shifted clock / warm "
+                        "process that generated another document first / root holding a prior run of another document",
+            "backend": "bounded", "bound": f"{len(docs)} corpus documents x up to 2 layouts x 4 variations (hash seeds 0,1,7,3 and one drawn from seed {seed})",
+            "evaluations": n, "distinct_nontrivial": n, "exhaustive": False, "failures": failures}
+
+
+def _snapshot(root):
+    sys.path.insert(0, os.path.dirname(WORKER))
+    from props.c09_worker import tree
+    return tree(root, with_mtime=True)
+
+
+def _gen(spec_path, root, pkg, core, force):
+    import logging
+    import warnings
+    logging.disable(logging.CRITICAL)
+    warnings.simplefilter("ignore")
+    from pyopenapi_gen import generate_client
+    buf = io.StringIO()
+    try:
+        with contextlib.redirect_stdout(buf), contextlib.redirect_stderr(buf):
+            generate_client(spec_path=spec_path, project_root=root, output_package=pkg, core_package=core, force=force, no_postprocess=True)
+        return None
+    except Exception as e:  # noqa
+        return e
+
+
+def _perturbations(root, pkg, core):
+    """(name, apply) pairs; each makes the existing tree differ from what would be generated"""
+    pdir = os.path.join(root, *pkg.split("."))
+    cdir = os.path.join(root, *(core or pkg + ".core").split("."))
+
+    def first(d, pred):
+        for dp, dn, fs in os.walk(d):
+            dn[:] = sorted(x for x in dn if x != "__pycache__")
+            for f in sorted(fs):
+                if pred(os.path.join(dp, f)):
+                    return os.path.join(dp, f)
+        return None
+    out = []
+    ep = first(os.path.join(pdir, "endpoints"), lambda p: p.endswith(".py") and not p.endswith("__init__.py"))
+    if ep:
+        out.append(("endpoint-module-edited", lambda: open(ep, "a").write("\n# edited by hand\n")))
+        out.append(("endpoint-module-deleted", lambda: os.unlink(ep)))
+    out.append(("client-edited", lambda: open(os.path.join(pdir, "client.py"), "a").write("\nX = 1\n")))
+    out.append(("stale-extra-module", lambda: open(os.path.join(pdir, "endpoints", "zz_removed_tag.py"), "w").write("class ZzClient: ...\n")))
+    mf = first(os.path.join(pdir, "models"), lambda p: p.endswith(".py") and not p.endswith("__init__.py"))
+    if mf:
+        out.append(("model-deleted", lambda: os.unlink(mf)))
+    cf = os.path.join(cdir, "http_transport.py")
+    out.append(("core-module-edited", lambda: open(cf, "a").write("\n# local patch\n")))
+    out.append(("core-module-deleted", lambda: os.unlink(os.path.join(cdir, "exceptions.py"))))
+    return out
+
+
+def bounded_rerun(tier, seed):
+    from props import corpus, gen_harness as G
+    docs = {n: d for n, f, d in corpus.shapes(tier, seed) if n in (SHAPES if tier == "thorough" else SHAPES[:3])}
+    layouts = [("cli", None), ("acme.clients.cli", "acme.shared.core"), ("cli", "cli.runtime.core")]
+    failures, n = [], 0
+    base = G.scratch("c09r")
+    try:
+        for name, d in docs.items():
+            for li, (pkg, core) in enumerate(layouts):
+                lay = f"{pkg}+{core}"
+                root = os.path.join(base, f"{name}_{li}")
+                os.makedirs(os.path.join(root, "_specs"))
+                sp = os.path.join(root, "_specs", "s.json")
+                json.dump(d, open(sp, "w"))
+                e = _gen(sp, root, pkg, core, True)
+                if e is not None:
+                    continue  # not an accepted document in this layout (other properties report that)
+                before = _snapshot(root)
+                e = _gen(sp, root, pkg, core, False)
+                n += 1
+                after = _snapshot(root)
+                if e is not None:
+                    failures.append({"id": f"bounded:rerun:up-to-date-fails:{'default-core' if core is None else 'explicit-core'}",
+                                     "detail": f"{name} [{lay}]: non-force re-run over its own output raised {type(e).__name__}: {str(e)[:120]}", "input": {"shape": name, "layout": lay}})
+                if after != before:
+                    ch = sorted(k for k in set(before) | set(after) if before.get(k) != after.get(k))
+                    failures.append({"id": "bounded:rerun:up-to-date-touches-files", "detail": f"{name} [{lay}]: non-force re-run changed {ch[:5]}", "input": {"shape": name, "layout": lay}})
+                for pname, _ in _perturbations(root, pkg, core):
+                    work = root + "_p"
+                    shutil.copytree(root, work)
+                    try:
+                        dict(_perturbations(work, pkg, core))[pname]()
+                        b2 = _snapshot(work)
+                        e = _gen(os.path.join(work, "_specs", "s.json"), work, pkg, core, False)
+                        n += 1
+                        a2 = _snapshot(work)
+                        if e is None:
+                            failures.append({"id": f"bounded:rerun:difference-not-reported:{pname}",
+                                             "detail": f"{name} [{lay}]: existing output differs ({pname}) but the non-force run reported success", "input": {"shape": name, "layout": lay, "perturbation": pname}})
+                        elif type(e).__name__ != "GenerationError":
+                            failures.append({"id": f"bounded:rerun:wrong-failure:{pname}", "detail": f"{name} [{lay}]: {pname}: raised {type(e).__name__}: {str(e)[:100]}",
+                                             "input": {"shape": name, "layout": lay, "perturbation": pname}})
+                        if a2 != b2:
+                            ch = sorted(k for k in set(b2) | set(a2) if b2.get(k) != a2.get(k))
+                            failures.append({"id": f"bounded:rerun:differing-tree-touched:{pname}", "detail": f"{name} [{lay}]: {pname}: the failing non-force run changed {ch[:5]}",
+                                             "input": {"shape": name, "layout": lay, "perturbation": pname}})
+                    finally:
+                        shutil.rmtree(work, ignore_errors=True)
+    finally:
+        shutil.rmtree(base, ignore_errors=True)
+    return {"function": "generate_client(force=False) over its own up-to-date output (must succeed, (path, sha256, mtime_ns) snapshot unchanged) and over 7 "
+                        "perturbed trees (edited / deleted / stale extra module, in package and in core: must raise GenerationError, snapshot unchanged)",
+            "backend": "bounded", "bound": f"{len(docs)} corpus documents x 3 layouts (embedded, sibling, nested core) x (1 + 7 perturbations)", "evaluations": n,
+            "distinct_nontrivial": n, "exhaustive": False, "failures": failures}
+
+
+BOUNDED = [bounded_determinism, bounded_rerun]
+
+MANIFEST = {
+    "category": "other",
+    "text": "The diff check that decides a non-force run is under statement contracts (every generated / existing file is accounted for); determinism and "
+            "the re-run clauses are compared over a matrix of hash seeds, processes, roots, clocks, prior runs and perturbed trees.",
+    "note": "Byte identity between runs is sampled, not proved. pathlib/difflib uninterpreted.",
+    "technique": "contract-based deductive verification (statement contracts over uninterpreted pathlib, z3) + bounded differential runs in subprocesses",
+}
